@@ -78,6 +78,7 @@ struct Global {
     std::map<const void *, RwSt> rwlocks;
     std::map<const void *, std::vector<int>> cond_waiters;
     size_t cp_pos = 0;
+    uint32_t cond_waits = 0;
     uint32_t low_prio = 0;
 };
 Global G;
@@ -331,6 +332,7 @@ void run(const Config &cfg, const std::function<void()> &body) {
     G.cond_waiters.clear();
     G.walk_pos = 0;
     G.cp_pos = 0;
+    G.cond_waits = 0;
     G.clock_ns = 1000ull * 1000000000ull;
     G.low_prio = 1000000;
     Thread *m = new Thread();
@@ -404,7 +406,14 @@ static int cond_wait_common(pthread_cond_t *c, pthread_mutex_t *m, const struct 
     uint64_t dl = abst ? ts_to_ns(abst) : 0;
     unlock_model(s, m);
     bool timed_out = false;
-    if (abst && dl <= G.clock_ns) {
+    uint32_t ordinal = G.cond_waits++;
+    bool spurious = false;
+    for (uint32_t o : G.cfg.spurious_waits) spurious |= o == ordinal;
+    if (spurious) {
+        // a spurious wake-up: the mutex was released and is re-acquired, nobody signalled, nothing timed out
+        G.stats.by_kind[31]++;
+        decide(s, -1);
+    } else if (abst && dl <= G.clock_ns) {
         timed_out = true; // deadline already passed: still a release/re-acquire of the mutex
         decide(s, -1);
     } else {
